@@ -467,23 +467,26 @@ Proof.
   rewrite (nth_error_update_nth _ _ _ _ E). eapply IH; eauto.
 Qed.
 
+Lemma all_visible : tags_visible all_vis.
+Proof. intros t _. reflexivity. Qed.
+
 Definition ctx_nd (root : itree) (ctx : npath) : nd := (ctx, opt_default (docnode root) (subtree (docnode root) ctx)).
 
 (* relative paths *)
 Lemma foc_finds_relative vis root m ss q t0 t' p :
-  tags_visible vis -> forallb (step_good m) ss = true -> subtree root q = Some t0 -> is_tag_t t0 = true ->
+  forallb (step_good m) ss = true -> subtree root q = Some t0 -> is_tag_t t0 = true ->
   foc vis root m m [LocationPath false ss] (0 :: q) = FocOk t' p ->
   exists n, eval (docnode t') m [LocationPath false ss] (ctx_nd t' (0 :: q)) = Ok [n] /\ fst n = p.
 Proof.
-  intros Hv G Hs Ht. unfold foc.
+  intros G Hs Ht. pose proof all_visible as Hv. unfold foc.
   destruct (negb (locatable [LocationPath false ss])); [discriminate|].
   assert (Ec : ctx_nd root (0 :: q) = (0 :: q, t0)) by (unfold ctx_nd; cbn; rewrite Hs; reflexivity).
   fold (ctx_nd root (0 :: q)).
   destruct (eval (docnode root) m [LocationPath false ss] (ctx_nd root (0 :: q))) as [[|x [|y l]]|f] eqn:Ev; try discriminate.
   - (* creation *)
     rewrite Hs. cbn [opt_default]. destruct (pre_check m ss); [discriminate|].
-    destruct (create_in vis m ss (0 :: q) t0) as [t0' p'|t0' f] eqn:Ecr; [|discriminate]. intro H. inversion H; subst; clear H.
-    destruct (create_finds vis m (docnode (replace_at root q t0')) ss (0 :: q) t0 t0' p Hv G Ht Ecr) as (sub & q' & Hf & Hq).
+    destruct (create_in all_vis m ss (0 :: q) t0) as [t0' p'|t0' f] eqn:Ecr; [|discriminate]. intro H. inversion H; subst; clear H.
+    destruct (create_finds all_vis m (docnode (replace_at root q t0')) ss (0 :: q) t0 t0' p Hv G Ht Ecr) as (sub & q' & Hf & Hq).
     exists (p, sub). split; [|reflexivity].
     assert (Ec' : ctx_nd (replace_at root q t0') (0 :: q) = (0 :: q, t0')).
     { unfold ctx_nd. cbn. rewrite (subtree_replace_at q root t0 t0' Hs). reflexivity. }
@@ -499,11 +502,11 @@ Lemma sel_doc f root : sel f 0 (tkids (docnode root)) = if f root then [(0, root
 Proof. unfold sel. cbn. destruct (f root); reflexivity. Qed.
 
 Lemma foc_finds_absolute vis root m s r ctx t' p :
-  tags_visible vis -> forallb (step_good m) (s :: r) = true ->
+  forallb (step_good m) (s :: r) = true ->
   foc vis root m m [LocationPath true (s :: r)] ctx = FocOk t' p ->
   exists n, eval (docnode t') m [LocationPath true (s :: r)] (ctx_nd t' ctx) = Ok [n] /\ fst n = p.
 Proof.
-  intros Hv G. unfold foc.
+  intros G. pose proof all_visible as Hv. unfold foc.
   destruct (negb (locatable [LocationPath true (s :: r)])); [discriminate|].
   fold (ctx_nd root ctx).
   destruct (eval (docnode root) m [LocationPath true (s :: r)] (ctx_nd root ctx)) as [[|x [|y l]]|f] eqn:Ev; try discriminate.
@@ -515,11 +518,11 @@ Proof.
     rewrite children_filter, sel_doc in E0.
     rw_step E0. cbn beta iota. cbn [visible_from].
     destruct (smatch m pr l ps root) eqn:Fr; cbn [map fst snd app]; [|discriminate].
-    destruct (create_in vis m r [0] root) as [k' p'|k' f] eqn:Ecr; [|discriminate]. intro H. inversion H; subst; clear H.
+    destruct (create_in all_vis m r [0] root) as [k' p'|k' f] eqn:Ecr; [|discriminate]. intro H. inversion H; subst; clear H.
     cbn [last set_kid docnode update_nth doc_root tkids].
-    destruct (create_finds vis m (docnode k') r [0] root k' p Hv Gr (smatch_tag _ _ _ _ _ Fr) Ecr) as (sub & q' & Hf & Hq).
+    destruct (create_finds all_vis m (docnode k') r [0] root k' p Hv Gr (smatch_tag _ _ _ _ _ Fr) Ecr) as (sub & q' & Hf & Hq).
     exists (p, sub). split; [|reflexivity].
-    pose proof (create_in_payload vis m r [0] root) as Hp. rewrite Ecr in Hp.
+    pose proof (create_in_payload all_vis m r [0] root) as Hp. rewrite Ecr in Hp.
     pose proof (good_step_single (docnode k') m pr l ps ([], docnode k') Gs) as E1.
     rewrite children_filter, sel_doc, (smatch_payload m pr l ps k' root Hp), Fr in E1. cbn [map fst snd app] in E1.
     unfold eval. cbn [d_paths d_path fold_left].
@@ -661,11 +664,11 @@ Definition steps_good (m : nsmap) (e : xpath_expr) : bool :=
 
 (* what the tree is afterwards: the old tree, or the old tree with the subtree at the start node grown by one chain *)
 Lemma foc_minimal vis root m ab ss q t0 t' p :
-  tags_visible vis -> forallb (step_good m) ss = true -> subtree root q = Some t0 -> is_tag_t t0 = true ->
+  forallb (step_good m) ss = true -> subtree root q = Some t0 -> is_tag_t t0 = true ->
   foc vis root m m [LocationPath ab ss] (0 :: q) = FocOk t' p ->
   t' = root \/ (ab = false /\ exists t0', grown t0 t0' /\ t' = replace_at root q t0') \/ (ab = true /\ grown root t').
 Proof.
-  intros Hv G Hs Ht. unfold foc. destruct (negb (locatable [LocationPath ab ss])); [discriminate|].
+  intros G Hs Ht. pose proof all_visible as Hv. unfold foc. destruct (negb (locatable [LocationPath ab ss])); [discriminate|].
   destruct (eval _ _ _ _) as [[|x [|y l]]|f]; try discriminate.
   - destruct ab.
     + destruct (pre_check m ss); [discriminate|].
@@ -675,11 +678,11 @@ Proof.
       cbn [create_in].
       pose proof (good_step_single (docnode root) m pr l ps ([], docnode root) Gs) as E0. rewrite children_filter, sel_doc in E0.
       rw_step E0. cbn beta iota. cbn [visible_from]. destruct (smatch m pr l ps root) eqn:Fr; cbn [map fst snd app]; [|discriminate].
-      destruct (create_in vis m r [0] root) as [k' p'|k' f] eqn:Ecr; [|discriminate]. intro H. inversion H; subst; clear H.
-      right. right. split; [reflexivity|]. cbn. eapply (create_grown vis m r _ _ _ _ Hv Gr); [eapply smatch_tag; eauto|exact Ecr].
+      destruct (create_in all_vis m r [0] root) as [k' p'|k' f] eqn:Ecr; [|discriminate]. intro H. inversion H; subst; clear H.
+      right. right. split; [reflexivity|]. cbn. eapply (create_grown all_vis m r _ _ _ _ Hv Gr); [eapply smatch_tag; eauto|exact Ecr].
     + rewrite Hs. cbn [opt_default]. destruct (pre_check m ss); [discriminate|].
-      destruct (create_in vis m ss (0 :: q) t0) as [t0' p'|t0' f] eqn:Ecr; [|discriminate]. intro H. inversion H; subst; clear H.
-      right. left. split; [reflexivity|]. exists t0'. split; [|reflexivity]. eapply (create_grown vis m ss _ _ _ _ Hv G Ht Ecr).
+      destruct (create_in all_vis m ss (0 :: q) t0) as [t0' p'|t0' f] eqn:Ecr; [|discriminate]. intro H. inversion H; subst; clear H.
+      right. left. split; [reflexivity|]. exists t0'. split; [|reflexivity]. eapply (create_grown all_vis m ss _ _ _ _ Hv G Ht Ecr).
   - intro H. inversion H. left. reflexivity.
 Qed.
 
@@ -779,9 +782,9 @@ Proof.
   destruct (eval _ _ _ _) as [[|x [|y l]]|f0]; try (intro H; inversion H; reflexivity).
   destruct ab.
   - destruct (pre_check mc ss); [intro H; inversion H; reflexivity|].
-    destruct (create_in vis mc ss [] (docnode root)) as [D' p'|D' f'] eqn:Ecr; [discriminate|]. intro H. inversion H; subst; clear H.
-    rewrite (create_unchanged_loc vis mc ss [] (docnode root) D' f G Ecr). reflexivity.
+    destruct (create_in all_vis mc ss [] (docnode root)) as [D' p'|D' f'] eqn:Ecr; [discriminate|]. intro H. inversion H; subst; clear H.
+    rewrite (create_unchanged_loc all_vis mc ss [] (docnode root) D' f G Ecr). reflexivity.
   - rewrite Hs. cbn [opt_default]. destruct (pre_check mc ss); [intro H; inversion H; reflexivity|].
-    destruct (create_in vis mc ss (0 :: q) t0) as [t0' p'|t0' f'] eqn:Ecr; [discriminate|]. intro H. inversion H; subst; clear H.
-    rewrite (create_unchanged_loc vis mc ss (0 :: q) t0 t0' f G Ecr). apply replace_at_same. exact Hs.
+    destruct (create_in all_vis mc ss (0 :: q) t0) as [t0' p'|t0' f'] eqn:Ecr; [discriminate|]. intro H. inversion H; subst; clear H.
+    rewrite (create_unchanged_loc all_vis mc ss (0 :: q) t0 t0' f G Ecr). apply replace_at_same. exact Hs.
 Qed.
